@@ -87,10 +87,10 @@ func extractLexTables(c *core.Ctx, R, pkgRel string) *lexTables {
 type implCfg struct {
 	step       string
 	unfinished bool
-	stack      []string // lexeme type names
-	rts        []string // returnToStep
-	saw        bool     // at least one lexeme was emitted
-	done       bool     // EndTop emitted: the document stops reading
+	stack      []string          // lexeme type names
+	rts        []string          // returnToStep
+	saw        bool              // at least one lexeme was emitted
+	done       bool              // EndTop emitted: the document stops reading
 	fields     map[string]string // other scanner fields with constant values (exact strings)
 }
 
